@@ -1,10 +1,163 @@
 package controls
 
-// All returns the table of negative controls.
+// All returns the table of negative controls: one or more seeded breaks per
+// rule. Targets are located textually on the current source; a control whose
+// target is gone is skipped (and listed), never failed.
 func All() []Control {
-	var out []Control
-	out = append(out, globControls...)
-	return out
+	return table
 }
 
-var globControls = []Control{}
+const (
+	fLexer   = "internal/lexer/lexer.go"
+	fParser  = "internal/parser/parser.go"
+	fFsm     = "internal/fsm/fsm.go"
+	fOption  = "internal/matcher/option.go"
+	fOptions = "internal/matcher/options.go"
+	fArg     = "internal/matcher/arg.go"
+	fOptsEnd = "internal/matcher/optsEnd.go"
+	fContext = "internal/matcher/context.go"
+	fStrings = "internal/matcher/strings.go"
+	fValues  = "internal/values/values.go"
+	fUtils   = "internal/values/utils.go"
+	fFlow    = "internal/flow/flow.go"
+	fCmds    = "commands.go"
+	fCli     = "cli.go"
+	fOpts    = "options.go"
+	fArgs    = "args.go"
+)
+
+var table = []Control{
+	// ---- LEX
+	{Name: "lex1-unguarded-read", Rule: "LEX-1", File: fLexer,
+		Old: "if pos >= eof || usage[pos] != '.' {\n\t\t\t\treturn nil, err(\"Unexpected end of usage, was expecting '..'\")",
+		New: "if usage[pos] != '.' {\n\t\t\t\treturn nil, err(\"Unexpected end of usage, was expecting '..'\")"},
+	{Name: "lex1-closed-flag", Rule: "LEX-1", File: fLexer,
+		Old: "\t\t\tif !closed {\n\t\t\t\treturn nil, err(\"Unclosed option value\")\n\t\t\t}\n", New: ""},
+	{Name: "lex1-dbldash-eof", Rule: "LEX-1", File: fLexer, Old: "if pos == eof || usage[pos] == ' ' {", New: "if usage[pos] == ' ' {"},
+	{Name: "lex2-tab-no-advance", Rule: "LEX-2", File: fLexer, Old: "\t\tcase '\\t':\n\t\t\tpos++", New: "\t\tcase '\\t':\n\t\t\ttk(TTChoice, \"\")"},
+	{Name: "lex3-revert-D5", Rule: "LEX-3", File: fLexer, Old: "\t\t\tdefault:\n\t\t\t\treturn nil, err(\"Was expecting an option name\")\n", New: ""},
+	{Name: "lex4-late-position", Rule: "LEX-4", File: fLexer, Old: "tkp(typ, opt, start)", New: "tkp(typ, opt, pos)"},
+	{Name: "lex4-wrong-char", Rule: "LEX-4", File: fLexer, Old: "tk(TTCloseSq, \"]\")", New: "tk(TTCloseSq, \"[\")"},
+	{Name: "lex5-error-position", Rule: "LEX-5", File: fLexer, Old: "return &ParseError{usage, msg, pos}", New: "return &ParseError{usage, msg, len(msg)}"},
+	{Name: "lex6-kind-never-emitted", Rule: "LEX-6", File: fLexer, Old: "tkp(TTDoubleDash, \"--\", start)", New: "tkp(TTLongOpt, \"--\", start)"},
+	// ---- PAR
+	{Name: "par1-canatom-drops-dbldash", Rule: "PAR-1", File: fParser, Old: "\tcase p.is(lexer.TTDoubleDash):\n\t\treturn true\n", New: ""},
+	{Name: "par1-optvalue-anywhere", Rule: "PAR-1", File: fParser,
+		Old: "\tif p.found(lexer.TTRep) {", New: "\tp.found(lexer.TTOptValue)\n\tif p.found(lexer.TTRep) {"},
+	{Name: "par2-missing-back", Rule: "PAR-2", File: fParser, Old: "\t\t\tp.back()\n\t\t\tpanic(fmt.Sprintf(\"Undeclared arg %s\", name))", New: "\t\t\tpanic(fmt.Sprintf(\"Undeclared arg %s\", name))"},
+	{Name: "par2-back-without-panic", Rule: "PAR-2", File: fParser, Old: "\tcase p.found(lexer.TTOpenPar):\n\t\tstart, end = p.seq(true)", New: "\tcase p.found(lexer.TTOpenPar):\n\t\tp.back()\n\t\tp.tkpos++\n\t\tstart, end = p.seq(true)"},
+	{Name: "par3-short-in-args-index", Rule: "PAR-3", File: fParser,
+		Old: "\t\tname := p.matchedToken.Val\n\t\topt, declared := p.optionsIdx[name]\n\t\tif !declared {\n\t\t\tp.back()\n\t\t\tpanic(fmt.Sprintf(\"Undeclared option %s\", name))\n\t\t}\n\t\tend = start.T(matcher.NewOpt(opt, p.optionsIdx), fsm.NewState())\n\t\tp.found(lexer.TTOptValue)\n\tcase p.found(lexer.TTLongOpt):",
+		New: "\t\tname := p.matchedToken.Val\n\t\topt, declared := p.argsIdx[name]\n\t\tif !declared {\n\t\t\tp.back()\n\t\t\tpanic(fmt.Sprintf(\"Undeclared option %s\", name))\n\t\t}\n\t\tend = start.T(matcher.NewOpt(opt, p.optionsIdx), fsm.NewState())\n\t\tp.found(lexer.TTOptValue)\n\tcase p.found(lexer.TTLongOpt):"},
+	{Name: "par3-group-private-index", Rule: "PAR-3", File: fParser, Old: "start.T(matcher.NewOptions(opts, p.optionsIdx), end)", New: "start.T(matcher.NewOptions(opts, map[string]*container.Container{}), end)"},
+	{Name: "par4-seq-ignores-flag", Rule: "PAR-4", File: fParser,
+		Old: "\tcase p.found(lexer.TTOptSeq):\n\t\tif p.rejectOptions {\n\t\t\tp.back()\n\t\t\tpanic(\"No options after --\")\n\t\t}\n", New: "\tcase p.found(lexer.TTOptSeq):\n"},
+	{Name: "par4-flag-reset", Rule: "PAR-4", File: fParser, Old: "\t\tp.expect(lexer.TTCloseSq)", New: "\t\tp.expect(lexer.TTCloseSq)\n\t\tp.rejectOptions = false"},
+	{Name: "par5-error-panic", Rule: "PAR-5", File: fParser, Old: "panic(\"Unexpected input: was expecting a command or a positional argument or an option\")", New: "panic(fmt.Errorf(\"Unexpected input\"))"},
+	{Name: "par5-no-terminal", Rule: "PAR-5", File: fParser, Old: "\te.Terminal = true\n", New: "\te.Terminal = e.Terminal\n"},
+	{Name: "par5-swallow-non-string", Rule: "PAR-5", File: fParser, Old: "\t\t\tdefault:\n\t\t\t\tpanic(v)", New: "\t\t\tdefault:\n\t\t\t\terr = nil"},
+	{Name: "par6-no-optional-shortcut", Rule: "PAR-6", File: fParser, Old: "\t\tstart.T(matcher.NewShortcut(), end)\n\t\tp.expect(lexer.TTCloseSq)", New: "\t\tp.expect(lexer.TTCloseSq)"},
+	{Name: "par6-rep-wrong-direction", Rule: "PAR-6", File: fParser, Old: "\t\tend.T(matcher.NewShortcut(), start)", New: "\t\tstart.T(matcher.NewShortcut(), end)"},
+	{Name: "par6-empty-group", Rule: "PAR-6", File: fParser, Old: "\tcase p.found(lexer.TTOpenPar):\n\t\tstart, end = p.seq(true)", New: "\tcase p.found(lexer.TTOpenPar):\n\t\tstart, end = p.seq(false)"},
+	{Name: "par6-concat-first-only", Rule: "PAR-6", File: fParser, Old: "\t\tfor _, tr := range s.Transitions {\n\t\t\tend.T(tr.Matcher, tr.Next)\n\t\t}", New: "\t\tfor _, tr := range s.Transitions {\n\t\t\tend.T(tr.Matcher, tr.Next)\n\t\t\tbreak\n\t\t}"},
+	{Name: "par7-choice-no-consume", Rule: "PAR-7", File: fParser, Old: "\tfor p.found(lexer.TTChoice) {", New: "\tfor p.is(lexer.TTChoice) {"},
+	// ---- FSM
+	{Name: "fsm1-drop-terminal", Rule: "FSM-1", File: fFsm, Old: "\t\t\tif next.Terminal {\n\t\t\t\ts.Terminal = true\n\t\t\t}\n", New: ""},
+	{Name: "fsm1-skip-has", Rule: "FSM-1", File: fFsm, Old: "\t\t\t\tif !s.has(tr) {\n\t\t\t\t\ts.Transitions = append(s.Transitions, tr)\n\t\t\t\t}", New: "\t\t\t\tif !s.has(tr) && !next.Terminal {\n\t\t\t\t\ts.Transitions = append(s.Transitions, tr)\n\t\t\t\t}"},
+	{Name: "fsm2-revert-D1", Rule: "FSM-2", File: fFsm, Old: "\t\t\tif expanded[next] {", New: "\t\t\tif false && expanded[next] {"},
+	{Name: "fsm2-no-visited-mark", Rule: "FSM-2", File: fFsm, Old: "\tvisited[s] = true\n\n\tsort.Sort(s.Transitions)", New: "\tsort.Sort(s.Transitions)"},
+	{Name: "fsm3-stop-at-first-miss", Rule: "FSM-3", File: fFsm, Old: "\t\t\tmatches = append(matches, &match{tr, rem, fresh})\n\t\t}", New: "\t\t\tmatches = append(matches, &match{tr, rem, fresh})\n\t\t} else if len(matches) > 0 {\n\t\t\tbreak\n\t\t}"},
+	{Name: "fsm3-first-match-only", Rule: "FSM-3", File: fFsm, Old: "\t\t\tpc.Merge(m.pc)\n\t\t\treturn true\n\t\t}", New: "\t\t\tpc.Merge(m.pc)\n\t\t\treturn true\n\t\t}\n\t\tbreak"},
+	{Name: "fsm4-shared-context", Rule: "FSM-4", File: fFsm, Old: "if ok, rem := tr.Matcher.Match(args, &fresh); ok {", New: "if ok, rem := tr.Matcher.Match(args, &pc); ok {"},
+	{Name: "fsm4-no-flag-copy", Rule: "FSM-4", File: fFsm, Old: "\t\tfresh.RejectOptions = pc.RejectOptions\n", New: ""},
+	{Name: "fsm4-merge-order", Rule: "FSM-4", File: fContext, Old: "pc.Args[k] = append(pc.Args[k], vs...)", New: "pc.Args[k] = append(vs, pc.Args[k]...)"},
+	{Name: "fsm5-ignore-fill-error", Rule: "FSM-5", File: fFsm, Old: "\tif err := fillContainers(pc.Opts); err != nil {\n\t\treturn err\n\t}", New: "\t_ = fillContainers(pc.Opts)"},
+	{Name: "fsm6-ignore-set-error", Rule: "FSM-6", File: fFsm, Old: "\t\t\tif err := con.Value.Set(v); err != nil {\n\t\t\t\treturn err\n\t\t\t}", New: "\t\t\t_ = con.Value.Set(v)"},
+	{Name: "fsm6-clear-in-loop", Rule: "FSM-6", File: fFsm, Old: "\t\tif multiValued, ok := con.Value.(values.MultiValued); ok {\n\t\t\tmultiValued.Clear()\n\t\t}\n\t\tfor _, v := range vs {", New: "\t\tfor _, v := range vs {\n\t\t\tif multiValued, ok := con.Value.(values.MultiValued); ok {\n\t\t\t\tmultiValued.Clear()\n\t\t\t}"},
+	{Name: "fsm6-guarded-user-flag", Rule: "FSM-6", File: fFsm, Old: "if con.ValueSetByUser != nil {", New: "if con.ValueSetByUser != nil && len(vs) > 1 {"},
+	{Name: "fsm7-revert-D2", Rule: "FSM-7", File: fFsm, Old: "func (s *State) apply(args []string, pc matcher.ParseContext) bool {\n", New: "func (s *State) apply(args []string, pc matcher.ParseContext) bool {\n\tif s.Terminal && len(args) == 0 {\n\t\treturn true\n\t}\n"},
+	{Name: "fsm7-strip-every-dashdash", Rule: "FSM-7", File: fFsm, Old: "if !pc.RejectOptions && arg == \"--\" {", New: "if arg == \"--\" {"},
+	{Name: "fsm8-arg-nonconsuming", Rule: "FSM-8", File: fArg, Old: "\tif len(args) == 0 {\n\t\treturn false, args\n\t}", New: "\tif len(args) == 0 {\n\t\treturn false, args\n\t}\n\tif args[0] == \"-\" {\n\t\treturn true, args\n\t}", Expect: "arg"},
+	// ---- MAT
+	{Name: "mat1-in-place-remove", Rule: "MAT-1", File: fStrings, Old: "\tres := make([]string, len(arr)-1)\n\tcopy(res, arr[:idx])\n\tcopy(res[idx:], arr[idx+1:])\n\treturn res\n}\n\nfunc removeStringsBetween", New: "\treturn append(arr[:idx], arr[idx+1:]...)\n}\n\nfunc removeStringsBetween"},
+	{Name: "mat2-lowercase-value", Rule: "MAT-2", File: fOption, Old: "\t\tvalue := kv[1]\n", New: "\t\tvalue := strings.ToLower(kv[1])\n"},
+	{Name: "mat2-arg-binds-next", Rule: "MAT-2", File: fArg, Old: "c.Args[arg.arg] = append(c.Args[arg.arg], args[0])", New: "c.Args[arg.arg] = append(c.Args[arg.arg], args[len(args)-1])"},
+	{Name: "mat3-try-ignores-flag", Rule: "MAT-3", File: fOptions, Old: "if len(args) == 0 || c.RejectOptions {\n\t\treturn false, args\n\t}\n\tfor", New: "if len(args) == 0 {\n\t\treturn false, args\n\t}\n\tfor"},
+	{Name: "mat3-optsend-noop", Rule: "MAT-3", File: fOptsEnd, Old: "\tc.RejectOptions = true\n", New: ""},
+	{Name: "mat4-dashdash-exit-false", Rule: "MAT-4", File: fOption, Old: "\t\tcase arg == \"--\":\n\t\t\treturn o.theOne.ValueSetFromEnv, args", New: "\t\tcase arg == \"--\":\n\t\t\treturn false, args"},
+	{Name: "mat5-long-reads-env", Rule: "MAT-5", File: fOption, Old: "\t\tvalue := kv[1]\n\t\tif value == \"\" {", New: "\t\tvalue := kv[1]\n\t\tif value == \"\" || o.theOne.ValueSetFromEnv {"},
+	{Name: "mat6-revert-D6", Rule: "MAT-6", File: fOptions, Old: "if o.ValueSetFromEnv && len(c.Opts[o]) == before {", New: "if o.ValueSetFromEnv && before >= 0 {"},
+	{Name: "mat6-token-count", Rule: "MAT-6", File: fOptions, Old: "if o.ValueSetFromEnv && len(c.Opts[o]) == before {", New: "if o.ValueSetFromEnv && len(nargs) == len(args) && before >= 0 {"},
+	{Name: "mat7-long-separate-skip-1", Rule: "MAT-7", File: fOption, Old: "\t\tif opt != o.theOne {\n\t\t\treturn false, 2, args\n\t\t}\n\t\tvalue := args[idx+1]", New: "\t\tif opt != o.theOne {\n\t\t\treturn false, 1, args\n\t\t}\n\t\tvalue := args[idx+1]"},
+	{Name: "mat7-short-eq-skip-2", Rule: "MAT-7", File: fOption, Old: "\t\topt := o.index[name]\n\t\tif opt != o.theOne {\n\t\t\treturn false, 1, args\n\t\t}", New: "\t\topt := o.index[name]\n\t\tif opt != o.theOne {\n\t\t\treturn false, 2, args\n\t\t}"},
+	{Name: "mat7-foreign-value-continue", Rule: "MAT-7", File: fOption, Old: "\t\tif opt != o.theOne {\n\t\t\treturn false, 1, args\n\t\t}\n\t\tc.Opts[o.theOne] = append(c.Opts[o.theOne], value)\n\t\tnewRem := rem[:remIdx]", New: "\t\tif opt != o.theOne {\n\t\t\tremIdx++\n\t\t\tcontinue\n\t\t}\n\t\tc.Opts[o.theOne] = append(c.Opts[o.theOne], value)\n\t\tnewRem := rem[:remIdx]"},
+	{Name: "mat8-short-no-dash-guard", Rule: "MAT-8", File: fOption, Old: "\t\t\tvalue = args[idx+1]\n\t\t\tif strings.HasPrefix(value, \"-\") {\n\t\t\t\treturn false, 0, args\n\t\t\t}\n", New: "\t\t\tvalue = args[idx+1]\n"},
+	{Name: "mat8-flag-records-1", Rule: "MAT-2", File: fOption, Old: "\t\tc.Opts[o.theOne] = append(c.Opts[o.theOne], \"true\")\n\t\treturn true, 1, removeStringAt(idx, args)", New: "\t\tc.Opts[o.theOne] = append(c.Opts[o.theOne], \"1\")\n\t\treturn true, 1, removeStringAt(idx, args)"},
+	{Name: "mat11-single-try", Rule: "MAT-11", File: fOptions, Old: "\tfor {\n\t\tok, nnargs := om.try(nargs, c)\n\t\tif !ok {\n\t\t\treturn true, nargs\n\t\t}\n\t\tnargs = nnargs\n\t}", New: "\treturn true, nargs"},
+	{Name: "mat12-idx-no-zero-guard", Rule: "MAT-12", File: fOption, Old: "\t\t\tif matched {\n\t\t\t\treturn true, nargs\n\t\t\t}\n\t\t\tif consumed == 0 {\n\t\t\t\treturn o.theOne.ValueSetFromEnv, args\n\t\t\t}\n\t\t\tidx += consumed\n\n\t\tcase strings.HasPrefix(arg, \"-\"):", New: "\t\t\tif matched {\n\t\t\t\treturn true, nargs\n\t\t\t}\n\t\t\tidx += consumed\n\n\t\tcase strings.HasPrefix(arg, \"-\"):"},
+	// ---- VAL
+	{Name: "val1-base-0", Rule: "VAL-1", File: fValues, Old: "func (ia *IntsValue) Set(s string) error {\n\ti, err := strconv.ParseInt(s, 10, 64)", New: "func (ia *IntsValue) Set(s string) error {\n\ti, err := strconv.ParseInt(s, 0, 64)"},
+	{Name: "val1-trimspace", Rule: "VAL-1", File: fValues, Old: "func (ia *Float64Value) Set(s string) error {\n\ti, err := strconv.ParseFloat(s, 64)", New: "func (ia *Float64Value) Set(s string) error {\n\ti, err := strconv.ParseFloat(s+\"\", 32)"},
+	{Name: "val2-store-before-check", Rule: "VAL-2", File: fValues, Old: "\tb, err := strconv.ParseBool(s)\n\tif err != nil {\n\t\treturn err\n\t}\n\t*bo = BoolValue(b)\n\treturn nil", New: "\tb, err := strconv.ParseBool(s)\n\t*bo = BoolValue(b)\n\tif err != nil {\n\t\treturn err\n\t}\n\treturn nil"},
+	{Name: "val3-empty-not-skipped", Rule: "VAL-3", File: fUtils, Old: "\t\t\tif len(v) == 0 {\n\t\t\t\tcontinue\n\t\t\t}\n", New: ""},
+	{Name: "val3-no-trim", Rule: "VAL-3", File: fUtils, Old: "\t\tv = strings.TrimSpace(v)\n", New: "\t\tv = strings.ToLower(v)\n"},
+	{Name: "val4-partial-content", Rule: "VAL-4", File: fUtils, Old: "\t\t\tinto.Clear()\n\t\t\treturn err", New: "\t\t\treturn err", Expect: "no-partial-content"},
+	{Name: "val5-isbool-by-interface", Rule: "VAL-5", File: fUtils, Old: "\tif bf, ok := v.(BoolValued); ok {\n\t\treturn bf.IsBoolFlag()\n\t}\n\n\treturn false", New: "\t_, ok := v.(BoolValued)\n\treturn ok"},
+	{Name: "val6-ctor-drops-default", Rule: "VAL-6", File: fValues, Old: "func NewInts(into *[]int, v []int) *IntsValue {\n\t*into = v\n", New: "func NewInts(into *[]int, v []int) *IntsValue {\n\t*into = nil\n"},
+	{Name: "val7-clear-keeps-array", Rule: "VAL-7", File: fValues, Old: "func (sa *StringsValue) Clear() {\n\t*sa = nil", New: "func (sa *StringsValue) Clear() {\n\t*sa = (*sa)[:0]"},
+	// ---- DECL
+	{Name: "decl1-drop-setbyuser", Rule: "DECL-1", File: fCmds, Old: "func (c *Cmd) Floats64Ptr(into *[]float64, p Floats64Param) {\n\tvalue, _ := p.value(into)\n\n\tswitch x := p.(type) {\n\tcase Floats64Opt:\n\t\tc.mkOpt(container.Container{Name: x.Name, Desc: x.Desc, EnvVar: x.EnvVar, HideValue: x.HideValue, Value: value, ValueSetByUser: x.SetByUser})\n\tcase Floats64Arg:\n\t\tc.mkArg(container.Container{Name: x.Name, Desc: x.Desc, EnvVar: x.EnvVar, HideValue: x.HideValue, Value: value, ValueSetByUser: x.SetByUser})",
+		New: "func (c *Cmd) Floats64Ptr(into *[]float64, p Floats64Param) {\n\tvalue, _ := p.value(into)\n\n\tswitch x := p.(type) {\n\tcase Floats64Opt:\n\t\tc.mkOpt(container.Container{Name: x.Name, Desc: x.Desc, EnvVar: x.EnvVar, HideValue: x.HideValue, Value: value, ValueSetByUser: x.SetByUser})\n\tcase Floats64Arg:\n\t\tc.mkArg(container.Container{Name: x.Name, Desc: x.Desc, EnvVar: x.EnvVar, HideValue: x.HideValue, Value: value})"},
+	{Name: "decl1-opt-registered-as-arg", Rule: "DECL-1", File: fCmds, Old: "func (c *Cmd) IntPtr(into *int, p IntParam) {\n\tvalue, _ := p.value(into)\n\n\tswitch x := p.(type) {\n\tcase IntOpt:\n\t\tc.mkOpt(", New: "func (c *Cmd) IntPtr(into *int, p IntParam) {\n\tvalue, _ := p.value(into)\n\n\tswitch x := p.(type) {\n\tcase IntOpt:\n\t\tc.mkArg("},
+	{Name: "decl2-desc-as-name", Rule: "DECL-2", File: fArgs, Old: "func (c *Cmd) IntsArgPtr(into *[]int, name string, value []int, desc string) {\n\tc.IntsPtr(into, IntsArg{\n\t\tName:  name,", New: "func (c *Cmd) IntsArgPtr(into *[]int, name string, value []int, desc string) {\n\tc.IntsPtr(into, IntsArg{\n\t\tName:  desc,"},
+	{Name: "decl3-sibling-ctor", Rule: "DECL-3", File: fArgs, Old: "return values.NewFloat64(into, a.Value), into", New: "return values.NewFloat64(new(float64), a.Value), into"},
+	{Name: "decl4-first-name-only", Rule: "DECL-4", File: fOpts, Old: "\t\tif _, found := c.optionsIdx[name]; found {", New: "\t\tif _, found := c.optionsIdx[opt.Names[0]]; found {"},
+	{Name: "decl4-two-letter-short", Rule: "DECL-4", File: fOpts, Old: "\t\tif len(name) > 1 {", New: "\t\tif len(name) > 2 {"},
+	{Name: "decl5-many-tokens", Rule: "DECL-5", File: fArgs, Old: "\tif len(tokens) != 1 {", New: "\tif len(tokens) < 1 {"},
+	{Name: "decl5-insert-before-check", Rule: "DECL-5", File: fArgs, Old: "\tif _, found := c.argsIdx[arg.Name]; found {\n\t\tpanic(fmt.Sprintf(\"duplicate argument name %q\", arg.Name))\n\t}\n", New: ""},
+	{Name: "decl6-env-before-default", Rule: "DECL-6", File: fArgs, Old: "\targ.DefaultValue = values.DefaultValue(arg.Value)\n\n\targ.ValueSetFromEnv = values.SetFromEnv(arg.Value, arg.EnvVar)", New: "\targ.ValueSetFromEnv = values.SetFromEnv(arg.Value, arg.EnvVar)\n\n\targ.DefaultValue = values.DefaultValue(arg.Value)"},
+	{Name: "decl7-env-at-run-time", Rule: "DECL-7", File: fOpts, Old: "func mkOptStrs(optName string) []string {\n", New: "func (c *Cmd) refreshEnv() {\n\tfor _, o := range c.options {\n\t\to.ValueSetFromEnv = values.SetFromEnv(o.Value, o.EnvVar)\n\t}\n}\n\nfunc mkOptStrs(optName string) []string {\n"},
+	// ---- CMD
+	{Name: "cmd1-no-policy-on-illegal-input", Rule: "CMD-1", File: fCmds, Old: "\tc.PrintHelp()\n\tc.onError(err)\n\treturn err\n\n}", New: "\tc.PrintHelp()\n\treturn err\n\n}"},
+	{Name: "cmd1-no-error-text", Rule: "CMD-1", File: fCmds, Old: "\t\tfmt.Fprintf(stdErr, \"Error: %s\\n\", err.Error())\n", New: ""},
+	{Name: "cmd1-policy-before-usage", Rule: "CMD-1", File: fCmds, Old: "\t\tc.PrintHelp()\n\t\tc.onError(err)\n\t\treturn err", New: "\t\tc.onError(err)\n\t\tc.PrintHelp()\n\t\treturn err"},
+	{Name: "cmd2-exit-1", Rule: "CMD-2", File: fCmds, Old: "\t\texiter(2)", New: "\t\texiter(1)"},
+	{Name: "cmd2-help-panics", Rule: "CMD-2", File: fCmds, Old: "\t\tif c.ErrorHandling == flag.ExitOnError {\n\t\t\texiter(0)\n\t\t}\n\t\treturn", New: "\t\tif c.ErrorHandling == flag.ExitOnError {\n\t\t\texiter(0)\n\t\t}"},
+	{Name: "cmd3-validate-before-help", Rule: "CMD-3", File: fCmds, Old: "\thelpIndex := c.helpIndex(args)\n\tnargsLen := c.getOptsAndArgs(args)\n", New: "\thelpIndex := c.helpIndex(args)\n\tnargsLen := c.getOptsAndArgs(args)\n\tif c.fsm.Parse(args[:nargsLen]) != nil {\n\t\thelpIndex = -1\n\t}\n"},
+	{Name: "cmd3-short-help", Rule: "CMD-3", File: fCmds, Old: "\t\tc.PrintLongHelp()\n\t\tc.onError(errHelpRequested)", New: "\t\tc.PrintHelp()\n\t\tc.onError(errHelpRequested)"},
+	{Name: "cmd4-ignore-dashdash", Rule: "CMD-4", File: fCmds, Old: "\t\tif arg == \"--\" {\n\t\t\treturn -1\n\t\t}\n\t\tfor _, searchArg := range searchSet {", New: "\t\tfor _, searchArg := range searchSet {"},
+	{Name: "cmd5-any-position", Rule: "CMD-5", File: fCmds, Old: "\targ := args[0]\n\tfor _, searchArg := range searchSet {\n\t\tif arg == searchArg {\n\t\t\treturn true\n\t\t}\n\t}\n\treturn false", New: "\tfor _, arg := range args {\n\t\tfor _, searchArg := range searchSet {\n\t\t\tif arg == searchArg {\n\t\t\t\treturn true\n\t\t\t}\n\t\t}\n\t}\n\treturn false"},
+	{Name: "cmd6-alias-included", Rule: "CMD-6", File: fCmds, Old: "return sub.parse(args[1:], entry, newInFlow, newOutFlow)", New: "return sub.parse(args[0:], entry, newInFlow, newOutFlow)"},
+	{Name: "cmd6-no-doinit", Rule: "CMD-6", File: fCmds, Old: "\t\tif sub.isAlias(arg) {\n\t\t\tif err := sub.doInit(); err != nil {\n\t\t\t\tpanic(err)\n\t\t\t}\n\t\t\treturn sub.parse(args[1:], entry, newInFlow, newOutFlow)", New: "\t\tif sub.isAlias(arg) {\n\t\t\treturn sub.parse(args[1:], entry, newInFlow, newOutFlow)"},
+	{Name: "cmd7-name-only", Rule: "CMD-7", File: fCmds, Old: "\tfor _, alias := range c.aliases {\n\t\tif arg == alias {\n\t\t\treturn true\n\t\t}\n\t}\n\treturn false", New: "\treturn arg == c.name"},
+	{Name: "cmd7-stop-at-dashdash", Rule: "CMD-7", File: fCmds, Old: "\tfor _, arg := range args {\n\t\tfor _, sub := range c.commands {", New: "\tfor _, arg := range args {\n\t\tif arg == \"--\" {\n\t\t\treturn len(args)\n\t\t}\n\t\tfor _, sub := range c.commands {"},
+	{Name: "cmd8-start-without-action", Rule: "CMD-8", File: fCmds, Old: "\tif len(args) == 0 {\n\t\tif c.Action != nil {", New: "\tif len(args) == 0 {\n\t\tif c.Action != nil || c.Before != nil {"},
+	{Name: "cmd9-ignore-spec-error", Rule: "CMD-9", File: fCmds, Old: "\t\tif err := c.doInit(); err != nil {\n\t\t\tpanic(err)\n\t\t}\n\n\t\tif c.Hidden {", New: "\t\t_ = c.doInit()\n\n\t\tif c.Hidden {"},
+	{Name: "cmd10-options-always", Rule: "CMD-10", File: fCmds, Old: "\t\tif len(c.options) > 0 {\n\t\t\tc.Spec = \"[OPTIONS] \"\n\t\t}", New: "\t\tc.Spec = \"[OPTIONS] \""},
+	{Name: "cmd10-trimmed-scanner-input", Rule: "CMD-10", File: fCmds, Old: "lexer.Tokenize(c.Spec)", New: "lexer.Tokenize(strings.TrimSpace(c.Spec))"},
+	{Name: "cmd10-args-idx-from-options", Rule: "CMD-10", File: fCmds, Old: "\t\tArgsIdx:    c.argsIdx,", New: "\t\tArgsIdx:    c.optionsIdx,"},
+	{Name: "cmd11-println", Rule: "CMD-11", File: fCli, Old: "fmt.Fprintln(stdErr, cli.version.version)", New: "fmt.Println(cli.version.version)"},
+	{Name: "cmd12-no-inherit", Rule: "CMD-12", File: fCmds, Old: "\t\tErrorHandling: c.ErrorHandling,\n", New: ""},
+	// ---- FLOW
+	{Name: "flow1-action-error-skips-own-after", Rule: "FLOW-1", File: fCmds, Old: "\t\t\t\tSuccess: newOutFlow,\n\t\t\t\tError:   newOutFlow,", New: "\t\t\t\tSuccess: newOutFlow,\n\t\t\t\tError:   outFlow,"},
+	{Name: "flow1-before-error-runs-own-after", Rule: "FLOW-1", File: fCmds, Old: "\t\tDo:     c.Before,\n\t\tError:  outFlow,", New: "\t\tDo:     c.Before,\n\t\tError:  inFlow,"},
+	{Name: "flow2-nil-before-success", Rule: "FLOW-2", File: fFlow, Old: "\tswitch {\n\tcase s.Success != nil:\n\t\ts.Success.Run(p)\n\tcase p == nil:\n\t\treturn", New: "\tswitch {\n\tcase p == nil && s.Desc == \"\":\n\t\treturn\n\tcase s.Success != nil:\n\t\ts.Success.Run(p)\n\tcase p == nil:\n\t\treturn"},
+	{Name: "flow3-error-gets-old-value", Rule: "FLOW-3", File: fFlow, Old: "\t\t\ts.Error.Run(e)", New: "\t\t\ts.Error.Run(p)"},
+	{Name: "flow4-exit-plain-int", Rule: "FLOW-4", File: fCli, Old: "panic(flow.ExitCode(code))", New: "panic(code)"},
+	{Name: "flow5-step-without-exiter", Rule: "FLOW-5", File: fCmds, Old: "\t\tDesc:    fmt.Sprintf(\"%s.After\", c.name),\n\t\tExiter:  exiter,", New: "\t\tDesc:    fmt.Sprintf(\"%s.After\", c.name),"},
+	// ---- HELP
+	{Name: "help1-hidden-listed", Rule: "HELP-1", File: fCmds, Old: "\t\tif c.Hidden {\n\t\t\tcontinue\n\t\t}\n", New: ""},
+	{Name: "help1-skip-first-option", Rule: "HELP-1", File: fCmds, Old: "\t\tfor _, opt := range c.options {\n\t\t\tvar (", New: "\t\tfor _, opt := range c.options[1:] {\n\t\t\tvar ("},
+	{Name: "help1-name-not-aliases", Rule: "HELP-1", File: fCmds, Old: "strings.Join(c.aliases, \", \"), c.desc)", New: "c.name, c.desc)"},
+	{Name: "help1-arg-row-no-env", Rule: "HELP-1", File: fCmds, Old: "printTabbedRow(w, arg.Name, joinStrings(arg.Desc, env, value))", New: "printTabbedRow(w, arg.Name, joinStrings(arg.Desc, env[:0], value))"},
+	{Name: "help2-first-long-break", Rule: "HELP-2", File: fCmds, Old: "\t\tif len(n) > 2 && long == \"\" {\n\t\t\tlong = n\n\t\t}", New: "\t\tif len(n) > 2 && long == \"\" {\n\t\t\tlong = n\n\t\t\tbreak\n\t\t}"},
+	{Name: "help2-hidden-shown", Rule: "HELP-2", File: fCmds, Old: "\tif hide {\n\t\treturn \"\"\n\t}\n", New: ""},
+	{Name: "help3-long-help-on-error", Rule: "HELP-3", File: fCmds, Old: "\t\tfmt.Fprintf(stdErr, \"Error: %s\\n\", err.Error())\n\t\tc.PrintHelp()", New: "\t\tfmt.Fprintf(stdErr, \"Error: %s\\n\", err.Error())\n\t\tc.PrintLongHelp()"},
+	// ---- GLOB
+	{Name: "glob1-global-write", Rule: "GLOB-1", File: fCmds, Old: "func (c *Cmd) onError(err error) {\n", New: "func (c *Cmd) onError(err error) {\n\tif err != nil {\n\t\tstdOut = stdErr\n\t}\n"},
+	{Name: "glob2-global-map", Rule: "GLOB-2", File: fOpts, Old: "func mkOptStrs(optName string) []string {\n", New: "var optStrsCache = map[string][]string{}\n\nfunc mkOptStrs(optName string) []string {\n\tif r, ok := optStrsCache[optName]; ok {\n\t\treturn r\n\t}\n"},
+	{Name: "glob3-goroutine", Rule: "GLOB-3", File: fFlow, Old: "\ts.Do()\n", New: "\tgo s.Do()\n"},
+	{Name: "glob4-order-dependent-range", Rule: "GLOB-4", File: fFsm, Old: "\tfor con, vs := range containers {\n", New: "\tvar last *container.Container\n\tfor con, vs := range containers {\n\t\tif last != nil {\n\t\t\tlast.ValueSetFromEnv = true\n\t\t}\n\t\tlast = con\n"},
+	{Name: "glob5-unstable-priority", Rule: "GLOB-5", File: fArg, Old: "func (*arg) Priority() int {\n\treturn 8", New: "func (a *arg) Priority() int {\n\treturn 8 + len(a.arg.Name)"},
+	{Name: "glob6-panicking-assert", Rule: "GLOB-6", File: fUtils, Old: "\tif dv, ok := v.(DefaultValued); ok {\n\t\tif dv.IsDefault() {\n\t\t\treturn \"\"\n\t\t}\n\t}", New: "\tif v.(DefaultValued).IsDefault() {\n\t\treturn \"\"\n\t}"},
+}
